@@ -106,6 +106,27 @@ template <class X> struct Esc {
             Str model = m_unescape(s, plus, br);
             if (got != model) c.violation("C16", fmt("unescape/%s/differs-from-model", X::tag()), what + fmt(" output=\"%s\" model=\"%s\"", esc(got).c_str(), esc(model).c_str()));
         }
+        // wchar_t only: a character above U+00FF whose low byte is the code of a hex digit, right behind a '%'. It is no hex digit, so
+        // the sequence is malformed and stays as it is (in the model such a character is the ordinary placeholder 0x7F)
+        if (sizeof(Char) > 1 && s.find('%') != Str::npos && !hasLiteralBreak) {
+            Str ms = s; for (auto& ch : ms) if ((unsigned char)ch == 0x7F) ch = 'x';
+            typename X::S w2 = widen<X>(ms); std::vector<size_t> cand;
+            for (size_t i = 0; i < ms.size(); i++) if (ms[i] == '%') { if (i + 1 < ms.size()) cand.push_back(i + 1); if (i + 2 < ms.size()) cand.push_back(i + 2); }
+            if (!cand.empty()) {
+                size_t pz = cand[c.rng.below((uint32_t)cand.size())]; static const unsigned HI[] = {0x0100u, 0x0200u, 0x10000u, 0x7FFFFF00u}; static const char HX[] = "0123456789abcdefABCDEF";
+                unsigned cp = HI[c.rng.below(4)] | (unsigned char)HX[c.rng.below(22)];
+                w2[pz] = (Char)cp; ms[pz] = (char)0x7F; w2.push_back(0);
+                int plus = (int)c.rng.below(2), br = (int)c.rng.below(4);
+                gio.set(w2.data(), w2.size() * sizeof(Char), 0); Char* buf = (Char*)gio.ptr; const Char* end;
+                { LibScope ls; end = X::UnescapeInPlaceEx(buf, plus, (UriBreakConversion)br); }
+                c.evaluations++; c.count("unescape_wide_non_hex_after_percent");
+                Str what = fmt("uriUnescapeInPlaceExW(\"%s\" with U+%04X at offset %zu, plusToSpace=%d, breakConversion=%d)", esc(ms).c_str(), cp, pz, plus, br);
+                if (!end || end < buf || end > buf + ms.size()) c.violation("C16", fmt("unescape/%s/returned-pointer-outside-or-longer", X::tag()), what);
+                else { Str got; for (const Char* q = buf; q < end; q++) got.push_back(X::cp(*q) > 255 ? (char)0x7F : (char)X::cp(*q));
+                       Str model = m_unescape(ms, plus, br);
+                       if (got != model) c.violation("C16", fmt("unescape/%s/wide-character-taken-for-hex-digit", X::tag()), what + fmt(" output=\"%s\" model=\"%s\" (0x7f stands for the wide character)", esc(got).c_str(), esc(model).c_str())); }
+            }
+        }
     }
 };
 
